@@ -191,6 +191,13 @@ def result_branches(body, bi):
         if es and es.enum == "core::result::Result" and "Ok" in es.targets and "Err" in es.targets:
             return [es.targets["Ok"]], [es.targets["Err"]]
         t = body.blocks[b].get("term")
+        if t and t["k"] == "call" and cname(t) in ("is_err", "is_ok") and "Result" in (t.get("callee") or ""):
+            nb = t.get("t")
+            bs = cfg.bool_switch(body, nb) if nb is not None else None
+            if bs:
+                if cname(t) == "is_err":
+                    return [bs.false_t], [bs.true_t]
+                return [bs.true_t], [bs.false_t]
         if t and t["k"] == "call" and not is_noise(t):
             continue
         for n in sc[b]:
